@@ -588,12 +588,17 @@ class Model:
             else:
                 ms.active = [reg[0] for reg in ms.m['regions']]
                 ms.running = True
-                self.tok('en:%s/?' % ms.m['name'])
-                self.callback(ms)
-                for r_ in range(len(ms.m['regions'])):
-                    self.do_entry_state(ms, r_, ms.active[r_], None)
+                ms.processing = True
+                try:
+                    self.tok('en:%s/?' % ms.m['name'])
+                    self.callback(ms)
+                    for r_ in range(len(ms.m['regions'])):
+                        self.do_entry_state(ms, r_, ms.active[r_], None)
+                finally:
+                    ms.processing = False
                 if ms.has_completion:
                     self.back_process_event(ms, 'none', {'D'})
+                self.back_message_queue(ms)
         except ModelThrow:
             self.tok('ESCAPED:scripted')
         self.tok(']')
